@@ -1,5 +1,6 @@
 import TracklibVerif.Lemmas.Filter
 import TracklibVerif.Lemmas.FilterNp
+import TracklibVerif.Lemmas.FilterShort
 import Mathlib.Algebra.Order.Ring.Rat
 import Mathlib.Algebra.Field.Rat
 import Mathlib.Tactic.NormNum
@@ -626,6 +627,144 @@ theorem smooth_is_mean (t : Sigs α) (f : α → α) (support : α) (S : Nat) (w
   rw [(dim_dispatch Globals.initial t _).1]
   exact congrArg (fun r => some (r, Globals.initial)) h1
 
+/-! ## Tracks shorter than the window (`track.size() < N = 2D+1`)
+
+The statement defines every output whatever the length of the track: a window that overhangs both ends at
+once is renormalised over the samples that are inside the track; and when boundaries are not filtered every
+index of such a track lies in the first or in the last half window. What `Filter.execute` does:
+* boundaries filtered: the renormalised mean at every index (`short_track_filtered`) — T1 has no length
+  hypothesis for `boundary = true`;
+* boundaries copied, `D ≤ size < N`: the input is returned unchanged (`short_track_unchanged`);
+* boundaries copied, `size < D`: the boundary loops read `input[i]` for `i in range(D)` and raise `IndexError`
+  (`short_track_index_error`) — after the filtering loop, so a zero norm still comes first (`zero_norm_fails`). -/
+
+/-- **Domain, any length** non-negative weights with a positive centre weight (every window of a Kernel
+object satisfying `window_nonneg`, `[0,1,0]`, any positive list) and a signal without NaN: every window holds
+its own centre sample, so no norm is zero — whatever the length of the signal when boundaries are filtered,
+and from the half window on when they are copied. -/
+theorem inDomain_of_centre_weight (v : List (Option α)) (k : List α) (boundary : Bool)
+    (hodd : k.length % 2 = 1) (hnn : ∀ w ∈ k, 0 ≤ w) (c : α) (hc : k[k.length / 2]? = some c) (hpos : 0 < c)
+    (hv : ∀ i, i < v.length → ∃ x, v[i]? = some (some x))
+    (hlen : boundary = false → k.length / 2 ≤ v.length) : InDomain v k boundary where
+  odd := hodd
+  nonneg := hnn
+  norm_pos := fun i hi => by
+    obtain ⟨x, hx⟩ := hv i hi
+    exact wtot_pos_of_mem _ (fun p hp => hnn _ (window_weight_mem hp)) (c, x)
+      (centre_mem_window v k i x c hx hc) hpos
+  long := hlen
+
+/-- **Short tracks, boundaries filtered** (`setFilterBoundary(True)`), any length — in particular a track
+shorter than the window: the call succeeds and *every* output is the renormalised weighted mean of its window,
+lying between two samples of that window; and on a track of at most `D+1` observations every window holds every
+valid sample of the track (`v[m]` with the weight `k[i+D-m]`): each output is a weighted mean of the whole track. -/
+theorem short_track_filtered (v : List (Option α)) (k : List α) (h : InDomain v k true) :
+    ∃ out, filterWindow v k true = .ok out ∧ out.length = v.length ∧
+      ∀ i, i < v.length →
+        out[i]? = some (some (wmean (window v k (k.length / 2) i))) ∧
+        (∃ p ∈ window v k (k.length / 2) i, p.2 ≤ wmean (window v k (k.length / 2) i)) ∧
+        (∃ p ∈ window v k (k.length / 2) i, wmean (window v k (k.length / 2) i) ≤ p.2) ∧
+        (v.length ≤ k.length / 2 + 1 → ∀ (m : Nat) (x : α), v[m]? = some (some x) →
+          ∃ w, k[i + k.length / 2 - m]? = some w ∧ (w, x) ∈ window v k (k.length / 2) i) := by
+  obtain ⟨out, h1, h2, h3⟩ := filter_is_mean v k true h
+  refine ⟨out, h1, h2, fun i hi => ?_⟩
+  have hm := h3 i hi (Or.inl rfl)
+  obtain ⟨y, hy, hlo, hhi⟩ := filter_between_samples v k true h out h1 i hi (Or.inl rfl)
+  rw [hm] at hy
+  cases hy
+  refine ⟨hm, hlo, hhi, ?_⟩
+  intro hshort m x hx
+  have hmlt : m < v.length := by
+    rcases Nat.lt_or_ge m v.length with h | h
+    · exact h
+    · rw [List.getElem?_eq_none h] at hx; simp at hx
+  exact mem_window_of_sample v k i m x h.odd (by omega) (by omega) hx
+
+/-- **Short tracks, boundaries copied, at least the half window** (`D ≤ size < N`; every weight list, every
+kernel on which `setFilterBoundary(True)` was not called): every index lies in the first or last half window
+and the input is returned unchanged, NaN included. -/
+theorem short_track_unchanged (v : List (Option α)) (k : List α) (h : InDomain v k false)
+    (hshort : v.length < k.length) : filterWindow v k false = .ok v := by
+  rw [filterWindow_eq v k false h.odd (fun i hi => ne_of_gt (h.norm_pos i hi)) h.long,
+    meanSignal_short v k (by have := h.odd; omega)]
+
+/-- **Short tracks, boundaries copied, shorter than the half window** (`size < D`): odd window, no zero norm —
+the filtering loop runs, then the boundary copy raises `IndexError`: no value is returned, in particular never
+a wrong one. (Outside the property's quantifier, which starts at signals as long as the window; the statement's
+"first and last half-window values are returned unchanged" would ask for the input.) -/
+theorem short_track_index_error (v : List (Option α)) (k : List α) (hodd : k.length % 2 = 1)
+    (hden : ∀ i, i < v.length → wtot (window v k (k.length / 2) i) ≠ 0)
+    (hlen : v.length < k.length / 2) : filterWindow v k false = .error .index :=
+  filterWindowG_short_index v k false hodd hden hlen
+
+/-- **`Filter.execute` as a whole on a short track with copied boundaries** (weight list, Kernel object or
+Dirac kernel prepared into the window `w`): `D ≤ size < N` returns the input unchanged (a list is still left
+normalised); `size < D` raises `IndexError`. -/
+theorem execute_short_track (v : List (Option α)) (kern : KArg α) (w : List α)
+    (hp : Prepared kern w false) (hodd : w.length % 2 = 1) (hnn : ∀ x ∈ w, 0 ≤ x)
+    (hpos : ∀ i, i < v.length → 0 < wtot (window v w (w.length / 2) i)) (hshort : v.length < w.length) :
+    (w.length / 2 ≤ v.length → ∃ k', execute v kern = .ok (k', v)) ∧
+    (v.length < w.length / 2 → execute v kern = .error .index) := by
+  constructor
+  · intro hlen
+    have hin : InDomain v w false := ⟨hodd, hnn, hpos, fun _ => hlen⟩
+    obtain ⟨_, k', hex, _⟩ := execute_is_mean v kern w false hp hin
+    rw [meanSignal_short v w (by omega)] at hex
+    exact ⟨k', hex⟩
+  · intro hlen
+    have hden : ∀ i, i < v.length → wtot (window v w (w.length / 2) i) ≠ 0 := fun i hi => ne_of_gt (hpos i hi)
+    cases kern with
+    | list k =>
+      obtain ⟨rfl, _, hs⟩ := hp
+      exact execute_list_short_index v w hodd hden hlen hs
+    | obj dirac fb f support S =>
+      cases dirac with
+      | true =>
+        obtain ⟨rfl, rfl⟩ := hp
+        exact execute_dirac_err v false f support S _ (short_track_index_error v _ hodd hden hlen)
+      | false =>
+        obtain ⟨hw, rfl⟩ := hp
+        exact execute_obj_err v false f support S w _ hw (short_track_index_error v w hodd hden hlen)
+
+/-- **`Track.smooth(width)` on a track shorter than the Gaussian window** (boundaries are never filtered by
+`smooth`) but with at least `D = int(3·width)` observations: the coordinates — and everything else except the
+scratch feature `temp` — are returned unchanged. -/
+theorem smooth_short_track (t : Sigs α) (f : α → α) (support : α) (S : Nat) (w : List α)
+    (hw : slidingWindow f support S = .ok w) (hsize : trackSize t ≠ 0)
+    (hall : ∀ d ∈ ["x", "y", "z"], ∃ v, getSig t d = some v ∧ InDomain v w false ∧ v.length < w.length) :
+    ∃ t', smooth Globals.initial t f support S = some (.ok t', Globals.initial) ∧
+      ∀ nm, nm ≠ "temp" → getSig t' nm = getSig t nm := by
+  obtain ⟨t', h1, h2, h3⟩ := smooth_is_mean t f support S w hw hsize
+    (fun d hd => by obtain ⟨v, hv, hin, _⟩ := hall d hd; exact ⟨v, hv, hin⟩)
+  refine ⟨t', h1, fun nm hnm => ?_⟩
+  by_cases hmem : nm ∈ ["x", "y", "z"]
+  · obtain ⟨v, hv, hv'⟩ := h2 nm hmem
+    obtain ⟨v0, hv0, hin, hshort⟩ := hall nm hmem
+    rw [hv] at hv0
+    cases hv0
+    rw [hv', hv, meanSignal_short v w (by have := hin.odd; omega)]
+  · exact h3 nm hmem hnm
+
+/-- … and with fewer than `D` observations (`Track.smooth()` on a 2-point track: `D = 3`) the call raises
+`IndexError` at the first coordinate, the module-level state being untouched. -/
+theorem smooth_too_short_fails (t : Sigs α) (f : α → α) (support : α) (S : Nat) (w : List α)
+    (hw : slidingWindow f support S = .ok w) (hodd : w.length % 2 = 1)
+    (v : List (Option α)) (hv : getSig t "x" = some v) (hne : v.length ≠ 0)
+    (hden : ∀ i, i < v.length → wtot (window v w (w.length / 2) i) ≠ 0) (hlen : v.length < w.length / 2) :
+    smooth Globals.initial t f support S = some (.error .index, Globals.initial) := by
+  show filterSeqCall Globals.initial t _ .default = _
+  rw [(dim_dispatch Globals.initial t _).1]
+  have hsize : trackSize t ≠ 0 := by unfold trackSize; rw [hv]; exact hne
+  have hop : operate t "x" (.arg (.obj false false f support S)) "temp" = .error .index :=
+    operate_arg_fw_err t "x" "temp" _ v none w false false .index (by simp [prepare, hw]) hodd
+      reservedName_temp hsize (by rw [getSig_createAF_other _ _ _ (by decide)]; exact hv)
+      (filterWindowG_short_index v w false hodd hden hlen)
+  have : filterSeq t (.k (.obj false Globals.initial.kernelFilterBoundary f support S)) ["x", "y", "z"] = .error .index := by
+    show seqLoop ["x", "y", "z"] (.arg (.obj false false f support S)) t = _
+    rw [seqLoop]
+    simp [hop]
+  rw [this]
+
 /-! ## The domain is sharp, and it is inhabited -/
 
 /-- outside the domain: an odd window one of whose norms is zero makes the method fail with a
@@ -691,6 +830,32 @@ no weighted mean, the output is NaN; the call does not fail (numpy weights) -/
 example : execute (α := ℚ) [some 1, none, some 3] (.list [0, 1, 0]) = .ok (some [0, 1, 0], [some 1, none, some 3]) := by
   simp [execute, prepare, normalise, filterWindowG, cells, inner, sample, anySample, copyBoundary, List.range, List.range.loop,
     List.zipIdx]
+
+/-- a 3-point track under the 5-tap window of `UniformKernel(1)` with filtered boundaries: every window
+overhangs both ends, each output is the mean renormalised over the samples inside the track -/
+example : filterWindow (α := ℚ) [some 0, some 10, some 0] [0, 1/3, 1/3, 1/3, 0] true
+    = .ok [some 5, some (10/3), some 5] := by
+  simp [filterWindow, filterWindowG, cells, inner, sample, List.range, List.range.loop]
+  norm_num
+
+/-- … in the domain of `short_track_filtered` (positive centre weight, no NaN) -/
+example : InDomain (α := ℚ) [some 0, some 10, some 0] [0, 1/3, 1/3, 1/3, 0] true := by
+  apply inDomain_of_centre_weight _ _ _ (by decide) _ (1/3) rfl (by norm_num)
+  · intro i hi
+    have : i = 0 ∨ i = 1 ∨ i = 2 := by simp at hi; omega
+    rcases this with rfl | rfl | rfl <;> exact ⟨_, rfl⟩
+  · intro h; cases h
+  · intro w hw; simp at hw; rcases hw with rfl | rfl | rfl <;> norm_num
+
+/-- the same track with copied boundaries (`D = 2 ≤ 3 < 5`) is returned unchanged … -/
+example : filterWindow (α := ℚ) [some 0, some 10, some 0] [0, 1/3, 1/3, 1/3, 0] false
+    = .ok [some 0, some 10, some 0] := by
+  simp [filterWindow, filterWindowG, cells, inner, sample, copyBoundary, List.range, List.range.loop]
+  norm_num
+
+/-- … and a 1-point track (`1 < D = 2`) makes the boundary copy fail -/
+example : filterWindow (α := ℚ) [some 7] [0, 1/3, 1/3, 1/3, 0] false = .error .index := by
+  simp [filterWindow, filterWindowG, cells, inner, sample, List.range, List.range.loop]
 
 /-- `dim="xy"` is walked character by character -/
 example : dimNames Globals.initial (.str "xy") = some ["x", "y"] := by decide
